@@ -241,6 +241,15 @@ func (w *World) regTags() (ISet, []string, error) {
 }
 
 func rulesC04(w *World, r *Report) {
+	// the ordinals of the two sides agree only if both number from zero for every
+	// message: a reference table that survives Reset (or a one-shot entry point
+	// that does not reset first) makes a reused instance disagree with its peer
+	includeIf(w, r, "C11", "the reference tables start empty for every message", 2, func(o *Obligation) bool {
+		if strings.Contains(o.Key, "C11.R2") {
+			return true
+		}
+		return strings.Contains(o.Key, "C11.R1") && (strings.Contains(o.Key, ".refMap") || strings.Contains(o.Key, ".refList"))
+	})
 	encReg, decReg := w.encRegistrar(), w.decRegistrar()
 	if encReg == nil || decReg == nil {
 		r.undecided("C04.anchor", "registrars", "-", "encoder ref-table registrar or decoder registrar not found")
